@@ -101,3 +101,54 @@ def c11(tier):
 
 
 CHECKS = {"C17": c17, "C11": c11}
+
+
+WALK_CFG = """SPECIFICATION {spec}
+CONSTANTS
+  Keys <- {keys}
+  Vals <- {vals}
+  MaxLive = {maxlive}
+  MaxMuts = {muts}
+  CacheModes <- {cache}
+  PruneModes <- {prune}
+  StartAll = {startall}
+INVARIANT Antichain
+INVARIANT NothingInvented
+INVARIANT WalkComplete
+INVARIANT ExactWhenStatic
+INVARIANT DepthBounded
+PROPERTY MissingOnlyViaCache
+PROPERTY Terminates
+VIEW View
+ACTION_CONSTRAINT Emit
+CHECK_DEADLOCK FALSE
+"""
+
+
+def walk_cfg(spec="Spec", keys="KWalk", vals="VWalk", maxlive=3, muts=1, cache="Both", prune="Both",
+             startall="FALSE"):
+    return WALK_CFG.format(spec=spec, keys=keys, vals=vals, maxlive=maxlive, muts=muts, cache=cache,
+                           prune=prune, startall=startall)
+
+
+def c09(tier):
+    rep = Report("C09", tier, LEVEL)
+    rep.assumptions += ["the trie under the walker is Canon(contents) and the readable node bodies are Stored(Canon) "
+                        "when pruning, everything ever written otherwise (properties C02/C04/C06; re-checked here "
+                        "because the replay runs a real trie)", "the number of mutations during one walk is bounded"]
+    R = "harness.fogwalk:replay_line"
+    if tier == "quick":
+        run_s2c(rep, "MC_FogWalk", walk_cfg(maxlive=3, muts=1), R)
+        run_s2c(rep, "MC_FogWalk", walk_cfg(keys="KWalk2", vals="VLongOnly", maxlive=4, muts=3, startall="TRUE"), R,
+                simulate=dict(num=36, depth=30))
+    else:
+        run_s2c(rep, "MC_FogWalk", walk_cfg(maxlive=3, muts=2), R, timeout=3400)
+        run_s2c(rep, "MC_FogWalk", walk_cfg(keys="KWalk2", vals="VLongOnly", maxlive=3, muts=1), R)
+        run_s2c(rep, "MC_FogWalk", walk_cfg(keys="KWalk2", vals="VWalk", maxlive=5, muts=4, startall="TRUE"), R,
+                simulate=dict(num=1200, depth=40))
+    need(rep, ["round-through-simulated-node", "stale-cache-entry-dropped", "round-via-frontier-cache",
+               "mutation-during-walk", "walk-completed-within-behaviour"])
+    return rep.finish()
+
+
+CHECKS["C09"] = c09
